@@ -13,7 +13,12 @@ import (
 func main() {
 	prop := flag.String("prop", "", "property id")
 	flag.String("replay", "", "replay file")
+	bulk := flag.Bool("bulkchild", false, "run the bulk-loss workload (race-detector sub-run)")
 	flag.Parse()
+	if *bulk {
+		bulkChildMain()
+		return
+	}
 	switch *prop {
 	case "C27":
 		vlib.Main("C27", "fault_enumeration", checkC27)
